@@ -43,7 +43,7 @@ m = {
     ],
     'checks': checks,
     'not_applicable': not_app,
-    'notes': 'Exit 2 + INCONCLUSIVE line = contract drift / front-end / resource limit (never a VIOLATION). See DESIGN.md.',
+    'notes': 'Exit 2 + INCONCLUSIVE line = contract drift / front-end / resource limit / only steps of the proof text fail and no failing input exists (never a VIOLATION). See DESIGN.md.',
 }
 json.dump(m, open(os.path.join(V, 'MANIFEST.json'), 'w'), indent=1)
 print('claimed', sorted(claimed), 'n/a', [x['property_id'] for x in not_app])
